@@ -42,7 +42,8 @@ def optsets(tier, rnd):
             jobs.append({'fmt': fmt, 'o': set(sub), 'gfsep': '-'})
             if 'gf' in sub and (tier != 'quick' or len(sub) <= 2):
                 jobs.append({'fmt': fmt, 'o': set(sub), 'gfsep': '#'})
-            if 'gf' in sub and (tier != 'quick' or len(sub) <= 1):
+            # (thorough: only with small option sets - the job is part of the TLC state and the model is near the heap limit)
+            if 'gf' in sub and len(sub) <= (1 if tier == 'quick' else 2):
                 # a separator the command line delivers as the integer 0 (misc.options_dict turns digits into int)
                 jobs.append({'fmt': fmt, 'o': set(sub), 'gfsep': '0'})
                 # ... and the empty separator (`gf_separator:`), "~" in the specification
